@@ -38,7 +38,7 @@ Definition get_class (builtins : table) (sysmods : list modl) (python_class : st
   end.
 
 (* ---------- the hook values as Python sees them *)
-(* _get_dependent_packages admits a module of sys.modules when `module._emd_hook is True`;
+(* _get_dependent_packages takes a module of sys.modules when `module._emd_hook is True`;
    _walk_module_find_classes descends into a member module when `obj._emd_hook == True`  (so 1 or 1.0 opt in there) *)
 Inductive hookv := HAbsent | HTrue | HOne | HFalse | HOtherValue.
 Definition hook_top (h : hookv) : bool := match h with HTrue => true | _ => false end.
